@@ -9,6 +9,13 @@ skeleton for corpus + seeded synthetic reactions, both formalisms, coefficient a
 helicity-coupling mode, naming flags; qrules' identical-particle combinatorics compared with
 the model's symmetrisation. Oracle: numpy evaluation of the helicity formula (own Wigner-d,
 own symmetrisation) against the lambdified `model.expression` at random angles.
+
+Round 5: reactions with >= 4 final-state particles on SEVERAL topologies (real J/psi -> pi+ pi- pi0 gamma via
+omega, f0(980), b1(1235)+ from qrules, stored under corpus/C02; deterministic shapes and a seeded stream from
+`tools/corr/C02_multi.py`) in which an equal `TwoBodyDecay` sits below different ancestors: the angle symbols of
+every node of every chain are compared with the model's prediction for the chain's OWN boost chain
+(`C02_node_angles`, `C02_witness_shared_subdecay`, `C02_memo_harmless`); the oracle evaluates these expression
+trees atom by atom (`evaluate_tree`).
 """
 
 from __future__ import annotations
@@ -44,7 +51,7 @@ QUICK_LINESHAPES = ["jpsi_gamma_pi0_pi0_omega_f0.hel.json", "lambdac_p_k_pi.hel.
 # real qrules reactions (stored, thinned to the outer projections J/psi +1, gamma +1) and deterministic shapes
 MULTI_REAL = ["jpsi_pip_pim_pi0_gamma.hel.json", "jpsi_pip_pim_pi0_gamma.can.json"]
 MULTI_SHAPES = ["multi_4body_two_res_vs_cascades.hel", "multi_4body_two_res_vs_cascades.can", "multi_5body_depth3.hel",
-                "multi_identical_cascade.hel", "multi_4body_per_topology_ids.can"]
+                "multi_identical_cascade.hel", "multi_4body_per_topology_ids.can", "multi_4body_sorting_tie.hel"]
 # quick oracle on them: (name, with marker lineshapes)
 QUICK_MULTI_ORACLE = [("jpsi_pip_pim_pi0_gamma.hel.json", True), ("jpsi_pip_pim_pi0_gamma.can.json", False),
                       ("multi_4body_two_res_vs_cascades.can", True), ("multi_5body_depth3.hel", True),
@@ -154,12 +161,17 @@ def correspondence(chk: common.Check, corpus, variant, own, rng, n_synth: int, t
         if len(reaction.transitions) > 60 and not thorough:
             continue
         add(name, reaction, False, default_flags(can), "corpus")
-        add(name, reaction, True, default_flags(can), "corpus")
-        add(name, reaction, False, default_flags(can), "corpus-lineshapes", dyn=dyn_for(reaction, rng))
         extra = L.flag_combinations(can)
         if not thorough:
             extra = [f for f in extra if f != default_flags(can)]
             extra = [extra[rng.randrange(len(extra))]]
+        if is_multi_name(name) and not thorough:
+            # the round-5 class, three cases each: coefficients; couplings under a non-default naming flag; lineshapes
+            add(name, reaction, True, extra[0], "corpus-flags")
+            add(name, reaction, False, default_flags(can), "corpus-lineshapes", dyn=dyn_for(reaction, rng))
+            continue
+        add(name, reaction, True, default_flags(can), "corpus")
+        add(name, reaction, False, default_flags(can), "corpus-lineshapes", dyn=dyn_for(reaction, rng))
         for fl in extra:
             if fl != default_flags(can):
                 add(name, reaction, False, fl, "corpus-flags")
@@ -541,8 +553,15 @@ def oracle(chk: common.Check, corpus, cases, rng, thorough: bool, broken: bool):
     for c in hyp[: (6 if thorough else 2)] + rest[:k]:
         todo.append((c["label"] + "+lineshapes", c["reaction"], c["couplings"], c["flags"]))
     n_done = 0
+    not_closed = []
     for label, r, couplings, flags in todo:
         with_ls = label.endswith("+lineshapes")
+        if not X.exchange_closed(r):
+            # a transition list that is not closed under the exchange of identical final-state particles (qrules never
+            # produces one; random subsets of chains can be): some identical-particle graph has outer projections outside the
+            # pools of the outer PoolSum, "the sum over the outer projections" is ambiguous. Observation, not a verdict.
+            not_closed.append(label)
+            continue
         try:
             fail, n = numeric_compare(r, couplings, flags, rng, 3 if not thorough else 6, lineshapes=with_ls,
                                       fast=is_multi_name(label))
@@ -559,6 +578,8 @@ def oracle(chk: common.Check, corpus, cases, rng, thorough: bool, broken: bool):
                 fail["description"] = desc
             found.append(fail)
     chk.info("oracle_reactions", n_done)
+    chk.info("observations", {"reactions_not_closed_under_exchange_of_identical_particles_(kept_out_of_the_numeric_verdict)":
+                              not_closed})
     return found
 
 
@@ -585,6 +606,16 @@ class C02Property:
             from tools.props import C03 as c03
 
             c03_corpus = {k: v for k, v in corpus.items() if k in c03.PROBES}
+            if any(k not in c03_corpus for k in c03.PROBES):  # probes C03 keeps outside the shared corpus directories
+                import qrules
+
+                for k in c03.PROBES:
+                    hits = sorted((common.ROOT / "corpus" / "C03").rglob(k))
+                    if k not in c03_corpus and hits:
+                        c03_corpus[k] = qrules.io.load(hits[0])
+                if any(k not in c03_corpus for k in c03.PROBES):
+                    c03_all = c03.load_corpus(False)
+                    c03_corpus.update({k: c03_all[k] for k in c03.PROBES if k in c03_all})
             vname, variant = c03.infer_variant(chk, c03_corpus)
             if vname != "sound":
                 chk.broken_correspondence(
@@ -649,15 +680,21 @@ class C02Property:
             "amplitude definition, component and the PoolSum structure parsed from the real sympy objects vs the Lean impl "
             "skeleton; qrules combinatorics vs the model's symmetrisation) + numeric points of the independent helicity-formula "
             "oracle. distinct_nontrivial counts distinct cases whose amplitudes contain at least 2 terms, and distinct "
-            "(reaction, mode, flags) triples evaluated by the oracle")
+            "(reaction, mode, flags) triples evaluated by the oracle; cases_with_an_equal_two_body_decay_below_different_ancestors "
+            "counts the correspondence cases of the round-5 class (equal edge ids, particles, helicities, interaction; different "
+            "boost chain)")
         chk.coverage["trusted_base"] = [
             "Lean 4.33 kernel + Mathlib v4.33 (axioms: see axioms_reported)",
             "skeleton extraction tools/corr/C02_lib.py (closed set of factor types; anything else is reported as 'other')",
             "Lean interpreter running Drivers/C02.lean",
-            "SymPy: Add/Mul flattening, WignerD/CG classes and their doit() (interpretation of D and CG), lambdify + numpy",
+            "SymPy: Add/Mul flattening, WignerD/CG classes and their doit() (interpretation of D and CG), lambdify + numpy, "
+            "numeric xreplace/Abs on the unfolded expression tree (multi-topology cases)",
             "qrules: transitions, identical-particle combinatorics (compared with the model's symmetrisation, not trusted)",
         ]
         chk.assumptions += [
+            "numeric oracle: reactions closed under the exchange of identical final-state particles (every identical-particle graph "
+            "has outer projections inside the per-state pools of the transitions; true for every qrules reaction); others are listed "
+            "under observations",
             "C02_intensity assumes the decidable condition wellFormed (isobar graphs, amplitude bases name topologies injectively, "
             "graphs of different spin groups have different outer projections), evaluated by the Lean model on every case; for "
             "the builder up to 043d8fb it additionally needs wellGrouped (false for identical final-state particles with unequal "
@@ -684,7 +721,14 @@ MANIFEST = {
         "CG factors), C02_components (the I_ component of a spin group denotes the partial sum of its outer configuration; "
         "A_ components are single graph terms), C02_symmetrised + C02_cell_total (the graphs of a transition are exactly its "
         "relabelings by permutations of identical final-state particles, one per attachment; the writes of a cell add up to all "
-        "of them, nothing dropped or doubled). Kernel-checked witness C02_witness_unequal_identical: with the builder up to "
+        "of them, nothing dropped or doubled). C02_node_angles: for every graph and node the D-function and the lineshape "
+        "variable set carry the helicity angles of the boost chain of the node's first child IN THAT GRAPH and the masses of "
+        "that graph's edges; C02_witness_shared_subdecay (kernel-checked, J/psi -> f0 omega | pi- b1+[pi+ omega], omega = edge 5 -> "
+        "(2,3) in both): equal TwoBodyDecays (ids, particles, helicities, interaction) have DIFFERENT factors (phi_2^23 vs "
+        "phi_2^23,023), the library's skeleton agrees with the formula there, a builder memoising node factors by TwoBodyDecay "
+        "does not (either order); C02_memo_harmless: such memoisation reproduces the library's terms on every list of graphs "
+        "on which the key determines the factor (decidable; all three-body reactions without identical particles). "
+        "Kernel-checked witness C02_witness_unequal_identical: with the builder up to "
         "043d8fb two identical final-state particles with unequal helicities were summed coherently (impl != spec; replayed on "
         "psi(2S) -> gamma gamma J/psi; repaired as f1f7ff8, the variant is inferred by a probe on every run). "
         "Lineshapes are part of the skeleton: every node term carries (builder id, particle, m_parent, m_child1, m_child2, L, "
@@ -694,7 +738,13 @@ MANIFEST = {
         "Aligned intensities (AxisAngleAlignment, DalitzPlotDecomposition) are NOT modelled here: they are covered by C05's "
         "wiring theorem for the top-level structure together with C02 for the unaligned amplitudes it refers to. "
         "Special functions are uninterpreted (no Wigner-D/CG theory needed); numeric agreement of the real lambdified "
-        "expression with an independent numpy evaluation of the formula is checked on every run (oracle), not proved."
+        "expression with an independent numpy evaluation of the formula is checked on every run (oracle), not proved. "
+        "Input classes of the quick tier include >= 4 final states on 2-4 topologies (and identical-particle graphs of one "
+        "topology) that share a two-body sub-decay below different ancestors, depth <= 3, 4 and 5 final states, qrules-like / "
+        "global / per-topology edge ids: real J/psi -> pi+ pi- pi0 gamma (omega, f0(980), b1(1235)+), 5 deterministic shapes, "
+        "a seeded stream; the run reports how many cases contain the class and flags a stream without it. On these the oracle "
+        "evaluates the unfolded real expression tree atom by atom (SymPy's own value of every WignerD/CG atom, then SymPy "
+        "arithmetic) instead of lambdifying it."
     ),
     "level_note": (
         "Trusted: Lean kernel + Mathlib; the skeleton extraction (parses Add/Mul/WignerD/CG/Symbol/Number, everything else "
